@@ -43,7 +43,10 @@ type Config struct {
 	// simplest-first so a cap keeps a prefix.
 	MaxAlphabet int
 	Filter      func(parent *Node, nm chain.Named) bool // optional: keep this successor?
-	NoRevert    bool
+	// Alphabet, if set, replaces chain.Alphabet as the source of the candidate next blocks (a property-local
+	// superset of the shared block alphabet); nil = chain.Alphabet.
+	Alphabet func(st *chain.State, number uint64, version string) []chain.Named
+	NoRevert bool
 	// Transform, if set, is applied to the private copy of the image before the node that performs the
 	// next operation is opened (e.g. "run a schema migration between two updates").
 	Transform func(d *memory.Database) error
@@ -57,9 +60,9 @@ type Config struct {
 	// property that violates is the caller's business (C01/C04); by default it is only counted.
 	OnStoreFail  func(parent *Node, nm chain.Named, err error)
 	OnRevertFail func(parent *Node, err error)
-	Workers  int
-	Run      *ev.Run
-	Label    string
+	Workers      int
+	Run          *ev.Run
+	Label        string
 }
 
 type Stats struct {
@@ -99,7 +102,11 @@ func Explore(cfg Config) Stats {
 			if h := p.Head(); h != nil {
 				number, pst = h.Block.Number+1, h.State
 			}
-			alpha := chain.Alphabet(pst, number, cfg.VersionAt(number))
+			alphaOf := cfg.Alphabet
+			if alphaOf == nil {
+				alphaOf = chain.Alphabet
+			}
+			alpha := alphaOf(pst, number, cfg.VersionAt(number))
 			if cfg.MaxAlphabet > 0 && len(alpha) > cfg.MaxAlphabet {
 				alpha = alpha[:cfg.MaxAlphabet]
 			}
